@@ -13,6 +13,7 @@ import pints
 
 from harness.bootstrap import load_chi
 from harness.core import Family
+from harness import forms as FM
 from harness import gen_pop as GP
 from harness import toys
 from harness.oracle.hierarchy import Hierarchy
@@ -459,6 +460,38 @@ def posterior_case(ctx, rng, idx, special_mode=None):
                        'case': case.describe()}, feats)
     if idx % 2 == 0:
         _names(ctx, case, np.array(x), rng)
+    # ---- the same whole-numbered point as float64 / integer-typed / list
+    xi = FM.intify(np.array(x))
+    try:
+        vf = post(xi.copy())
+    except Exception as e:      # noqa
+        ctx.count('integer_point_not_evaluable')
+        return
+    if not np.isfinite(vf):
+        ctx.count('integer_point_outside_support')
+        return
+    form = FM.pick(rng, ['int64', 'int32', 'pyint', 'list', 'strided'])
+    xv = FM.variant(xi, form)
+    try:
+        got = (post(xv),) + tuple(post.evaluateS1(xv))
+        base = (vf,) + tuple(post.evaluateS1(xi.copy()))
+    except Exception as e:      # noqa
+        ctx.violation_exc('evaluation_raises', e,
+                          {'case': case.describe(), 'input_form': form},
+                          dict(feats, input_form=form))
+        return
+    ctx.count('input_forms_compared')
+    # (whole-numbered points are often degenerate for the filters - equal
+    # simulated values in a cell - so the float64 evaluation, which the
+    # reference validates elsewhere, is the oracle here)
+    if not np.isfinite(base[1]):
+        # no gradient is defined next to a non-finite score
+        got, base = got[:2], base[:2]
+    if not FM.same(got, base, 1e-10):
+        ctx.violation('same_numbers_same_result', 'input_form:' + form,
+                      {'float64': base[:2], form: got[:2],
+                       'x': xi, 'case': case.describe()},
+                      dict(feats, input_form=form))
 
 
 def special_case(ctx, rng, idx):
